@@ -377,7 +377,11 @@ DagStart(S, t) ==
     LET f == Top(S, t)
         D == S.dags[f.dag]
         order == SelectSeq(TopoOrder(D), LAMBDA n : D.rec \/ ~Processed(S, n))
-        S1 == IF D.rec THEN [S EXCEPT !.hid = @ \cup SeqSet(order), !.hidp = @ \cup SeqSet(order)] ELSE S
+        (* a node of the sub-graph still in flight (a started node of a failed one-of candidate is left running) belongs
+           to the previous iteration: its task is cancelled before the results are hidden (fix: outdated executions) *)
+        outdated == SelectSeq([i \in 1..Len(S.tasks) |-> i], LAMBDA i : i # t /\ S.tasks[i].name \in SeqSet(order))
+        S0 == IF D.rec THEN CancelSeq(S, outdated) ELSE S
+        S1 == IF D.rec THEN [S0 EXCEPT !.hid = @ \cup SeqSet(order), !.hidp = @ \cup SeqSet(order)] ELSE S0
     IN  IF Len(order) = 0 THEN Continue(Ret(S1, t, <<"none">>), t)
         ELSE DagLoop(SetTop(S1, t, [f EXCEPT !.order = order, !.i = 1, !.locals = <<>>, !.pc = "loop"]), t)
 
